@@ -11,10 +11,7 @@ from .lexer import Token, tokenize, go_string_bytes
 from .parser import parse_file
 from .interp import Program, Value, Ref, RUNTIME_IMPORT_PATH, clear_caches
 
-try:  # static.py is optional at import time during bootstrap
-    from .static import static_check
-except ImportError:  # pragma: no cover
-    pass
+from .static import static_check
 
 __all__ = [
     "GoUnsupported", "GoPanic", "GoSyntaxError", "GoCompileError", "Token", "tokenize", "go_string_bytes",
